@@ -94,7 +94,7 @@ mutual
     | .mk .product fs _, .struct _ ts => patsWT env fs ts
     | .mk (.variant e i) fs _, .enum e' =>
       e == e' && (variantFields env e i).isSome && patsWT env fs (specTys env (.enum e) (.variant e i))
-    | .mk .or fs _, t => patsWTOr env fs t
+    | .mk .or fs _, t => !fs.isEmpty && patsWTOr env fs t
     | _, _ => false
   def patsWT (env : EnumEnv) : List DPat → List Ty → Bool
     | [], [] => true
@@ -393,7 +393,7 @@ mutual
       cases c with
       | or =>
         simp only [expandPat]
-        exact wt_expandPats env fs T (by simpa [patWT] using hp)
+        exact wt_expandPats env fs T (by simp only [patWT, Bool.and_eq_true] at hp; exact hp.2)
       | _ => simp_all [expandPat, DPat.ctor, Ctor.isOr]
   theorem wt_expandPats (env : EnumEnv) (ps : List DPat) (T : Ty) (hp : patsWTOr env ps T = true) :
       ∀ h ∈ expandPats ps, patWT env h T = true ∧ h.ctor.isOr = false := by
